@@ -138,12 +138,27 @@ def add_parameter_contract():
 
 
 def metaclass_setattr_contract():
+    from pyvc.loops import LoopSpec
+    holder = {}
+    is_mut = z3.Function("is_mutable_container", vm.V, z3.BoolSort())
+    copyF = z3.Function("shallow_copy_of", vm.V, vm.V)
+    QUAL = "ParameterizedMetaclass.__setattr__"
+
+    def shared(s):
+        # the two slots the copy keeps sharing with the Parameter it was copied from
+        return z3.Or(vm.strv(s) == z3.StringVal("default"), vm.strv(s) == z3.StringVal("watchers"))
+
     def configure(I):
         events_lib(I)
 
         I.sym_fields = {"default", "watchers"}
 
         def copy_copy(I, st, fv, args, kwargs, ctx):
+            if not z3.eq(I.term(args[0]), holder["par"]):
+                # a slot value: its shallow copy (uninterpreted; a different object for a container)
+                r = copyF(I.term(args[0]))
+                I.U.well_typed(r)
+                return [(st, Sym(r))]
             # a shallow copy shares the default — and the watcher table — with the Parameter it was copied from
             r = I.alloc_obj(st, "Parameter", lazy=True, label="param_copy")
             from pyvc.objects import sym_field
@@ -156,6 +171,37 @@ def metaclass_setattr_contract():
             st.ghost["copy"] = r
             return [(st, r)]
         I.lib["copy.copy"] = copy_copy
+
+        # the other slots of the copy, by (symbolic) name: `slots_of_copy`, initially the very objects
+        # the inherited Parameter holds (that is what "shallow" means)
+        def class_attr(I, st, cv, attr, ctx):
+            if attr == "_all_slots_":
+                return [(st, holder["all_slots"])]
+            return None
+        I.lib["$class_attr"] = class_attr
+        from pyvc import builtins_lib as bl
+
+        def h_getattr(I, st, fv, args, kwargs, ctx):
+            if isinstance(args[1], Sym) and len(args) == 2 and isinstance(args[0], Ref) and args[0] == st.ghost.get("copy"):
+                r = z3.Select(st.ghost["slots_of_copy"], args[1].t)
+                I.U.well_typed(r)
+                return [(st, Sym(r))]
+            return bl.h_getattr(I, st, fv, args, kwargs, ctx)
+        I.lib["getattr"] = h_getattr
+
+        def setattr_sym(I, st, x, n, v, ctx):
+            if not (isinstance(x, Ref) and x == st.ghost.get("copy")):
+                raise OutOfReach("setattr with a symbolic name on something else than the copy")
+            obs = ctx.get("obligations")
+            if obs is not None:
+                obs.append(("C03/the slot-copying loop never replaces the shared default or watcher table", st.fork(), z3.Not(shared(I.term(n)))))
+            st.ghost["slots_of_copy"] = z3.Store(st.ghost["slots_of_copy"], I.term(n), I.term(v))
+            return [(st, Conc(None))]
+        I.lib["$setattr_symbolic"] = setattr_sym
+
+        def is_mutable(I, st, fv, args, kwargs, ctx):
+            return [(st, BoolV(is_mut(I.term(args[0]))))]
+        I.contracts["_is_mutable_container"] = is_mutable
 
         def vmethod(I, st, name, selfv, args, kwargs, ctx):
             if name == "__set__":
@@ -179,6 +225,14 @@ def metaclass_setattr_contract():
         I.contracts["ParameterizedMetaclass.get_param_descriptor"] = gpd
         name, value = Sym(U.fresh("attribute_name")), Sym(U.fresh("value"))
         st.pc.append(z3.Contains(st.heap[cd.oid].keys, z3.Unit(name.t)))     # a found descriptor is reachable
+        # A-SLOTS: `_all_slots_` is a list of pairwise different names (strings) (ParameterMetaclass.__new__ builds
+        # it with list(<dict>)): modelled as the key sequence of a dict, whose iteration is the same
+        holder["par"] = par.t
+        holder["all_slots"] = I.alloc_dict(st, keys=U.fresh_seq("all_slots"), vals=z3.Const("unused_vals", z3.ArraySort(vm.V, vm.V)))
+        holder["slots0"] = z3.Const("slots_of_inherited_parameter", z3.ArraySort(vm.V, vm.V))
+        holder["s"] = U.fresh("some_slot")
+        st.pc.append(vm.ty(holder["s"]) == vm.TAG["str"])
+        st.ghost["slots_of_copy"] = holder["slots0"]
         fv = I.bound_method(mcs, I.src.find_method("ParameterizedMetaclass", "__setattr__"))
         return fv, [name, value], {}, {"mcs": mcs, "par": par.t, "own": own.t, "name": name, "value": value,
                                        "symbols": {}}
@@ -218,6 +272,14 @@ def metaclass_setattr_contract():
         cp = st.ghost.get("copy")
         if isinstance(cp, Ref):
             hcp = st.heap[cp.oid]
+            sk = holder["s"]
+            v0 = z3.Select(holder["slots0"], sk)
+            own = z3.And(is_mut(v0), z3.Not(shared(sk)))
+            in_slots = z3.Contains(st.heap[holder["all_slots"].oid].keys, z3.Unit(sk))
+            out.append(("C12/the subclass's copy owns a shallow copy of every mutable container slot (other than the default and the watcher table): later changes to it stay with the subclass",
+                        z3.Implies(z3.And(in_slots, own), z3.Select(st.ghost["slots_of_copy"], sk) == copyF(v0))))
+            out.append(("C12/… and every other slot holds what the inherited Parameter holds",
+                        z3.Implies(z3.Not(z3.And(in_slots, own)), z3.Select(st.ghost["slots_of_copy"], sk) == v0)))
             out.append(("C03/the subclass's copy of an inherited Parameter keeps sharing the watcher table (class-level watchers follow, unwatch reaches both)",
                         z3.BoolVal(hcp.fields.get("watchers") is hcp.init.get("watchers"))))
         plain = z3.And(vm.truthy(info["par"]), z3.Not(is_param_value))
@@ -227,7 +289,18 @@ def metaclass_setattr_contract():
         out.append(("otherwise the attribute is set on the class exactly once",
                     z3.Implies(z3.Not(plain), z3.BoolVal(len(w) == 1 and len(s_) == 0))))
         return out
-    c = FunctionContract("%s:ParameterizedMetaclass.__setattr__" % MOD, PROP, setup, post, configure=configure,
+    def inv(I, st, pre):
+        sk = holder["s"]
+        v0 = z3.Select(holder["slots0"], sk)
+        seen = z3.Contains(pre.seq, z3.Unit(sk))
+        want = z3.If(z3.And(is_mut(v0), z3.Not(shared(sk))), copyF(v0), v0)
+        return z3.Select(st.ghost["slots_of_copy"], sk) == z3.If(seen, want, v0)
+
+    def havoc(I, st):
+        st.ghost["slots_of_copy"] = z3.Const("slots_of_copy!%d" % I.new_oid(), z3.ArraySort(vm.V, vm.V))
+    loops = {(QUAL, "type(parameter)._all_slots_"): LoopSpec("type(parameter)._all_slots_", inv=inv, heap=havoc, name="own-copy-of-mutable-slots",
+                                                                elem_facts=lambda I, st, x: [vm.ty(x) == vm.TAG["str"]])}
+    c = FunctionContract("%s:ParameterizedMetaclass.__setattr__" % MOD, PROP, setup, post, configure=configure, loops=loops,
                          name="ParameterizedMetaclass.__setattr__")
     c.static_witness = "class-level set on a subclass whose .param cache is filled"
     c.static_replay = SETATTR_REPLAY
@@ -251,9 +324,36 @@ for cls in (B, C):
         bad.append('%s.param[x] is not the descriptor that governs %s.x' % (cls.__name__, cls.__name__))
     if cls.param['x'].default != cls.x:
         bad.append('%s.param[x].default=%r but %s.x=%r' % (cls.__name__, cls.param['x'].default, cls.__name__, cls.x))
+# the copy owns its mutable containers (C12): nothing done through the subclass reaches the parent
+class SA(param.Parameterized):
+    s = param.Selector(objects=['a', 'b', 'c'], default='a', check_on_set=False)
+    t = param.Selector(objects={'a': 1, 'b': 2}, default=1)
+    l = param.ListSelector(objects=[1, 2, 3], default=[1])
+class SB(SA):
+    pass
+before = (list(SA.param.s.objects), list(SA.param.t.objects), dict(SA.param.t.names), list(SA.param.l.objects))
+SB.s = 'v1'
+SB.t = 2
+SB.l = [2]
+for nm in ('s', 't', 'l'):
+    pa, pb = SA.param[nm], SB.param[nm]
+    if pb is pa:
+        continue
+    if pb._objects is pa._objects and len(pa._objects):
+        bad.append('after SB.%s = ...: SB.param.%s and SA.param.%s hold the SAME objects list' % (nm, nm, nm))
+    if isinstance(pa.names, dict) and pa.names and pb.names is pa.names:
+        bad.append('after SB.%s = ...: SB.param.%s and SA.param.%s hold the SAME names dict' % (nm, nm, nm))
+after = (list(SA.param.s.objects), list(SA.param.t.objects), dict(SA.param.t.names), list(SA.param.l.objects))
+if after != before:
+    bad.append('class-level assignments on the subclass changed what the parent reports: %r -> %r' % (before, after))
+w = []
+SA.param.watch(lambda e: w.append(e.new), 's')
+SB.s = 'b'
+if w != ['b']:
+    bad.append('a class-level watcher registered through the parent no longer follows the subclass copy: %r' % (w,))
 print('\\n'.join(bad) or 'namespace agrees with attribute access')
 if bad:
-    print('REPRODUCED: C13 stale .param cache after a class-level assignment'); sys.exit(1)
+    print('REPRODUCED: ' + bad[0]); sys.exit(1)
 print('NOT-REPRODUCED'); sys.exit(0)
 '''
 
